@@ -29,7 +29,7 @@ BUDGET = {"quick": 10000, "thorough": 300000}
 def _cases(draw):
     prof = dict(gen.PROFILES["broad"], p_group_logic=0.5, p_extra_cols=0.5, p_params=0.6, p_multilang=0.6, p_media=0.2,
                 settings="some", p_entities=0.2, p_trigger=0.15, p_choice_media=0.2, p_or_other=0.15, p_choice_filter=0.3,
-                extra_col_names=["parent", "e0", "kind", "extra_data"], p_hint=0.4, p_osm=0.06, odd_list_names=True, max_lists=4)
+                extra_col_names=["parent", "e0", "kind", "extra_data"], p_hint=0.4, p_osm=0.06, odd_list_names=True, max_lists=4, p_search=0.08)
     g = gen.G(draw, prof)
     form = gen.build_form(draw, prof, g=g)
     # the type dictionary's legacy entries (some carry a default hint or bind of their own)
@@ -122,6 +122,16 @@ def evaluate(case) -> Outcome:
             if x5 != direct:
                 k, d = diff_kind(direct, x5)
                 out.fail("C16.rt2-json-loader", k, d)
+            # the survey's own dump must reload to the same form whenever it is taken -- also after the XML has been generated
+            out.checked("C16.dump-after-to-xml")
+            try:
+                after = json.dumps(direct_survey.to_json_dict())
+                x6 = create_survey_element_from_dict(json.loads(after)).to_xml(validate=False, pretty_print=False)
+                if x6 != direct:
+                    k, d = diff_kind(direct, x6)
+                    out.fail("C16.dump-after-to-xml", k, d)
+            except Exception as e:  # noqa: BLE001
+                out.fail("C16.dump-after-to-xml", "raises:" + crash_sig(e), repr(e))
             # (3) dump - load - dump stability
             out.checked("C16.stable")
             s4 = create_survey_element_from_dict(json.loads(t1))
